@@ -373,7 +373,7 @@ func (h *Handle) Iter(ctx context.Context, start, end []byte, ts uint64, limit u
 	if err != nil {
 		return nil, err
 	}
-	return &Iter{h: h, In: it}, nil
+	return &Iter{h: h, In: it, scan: limit == 0}, nil
 }
 
 func (h *Handle) SupportTTL() bool {
@@ -633,9 +633,10 @@ func (b *Batch) discard() { b.inner = nil }
 // ---- iterators ----
 
 type Iter struct {
-	h  *Handle
-	In storage.Iter
-	n  int
+	h    *Handle
+	In   storage.Iter
+	n    int
+	scan bool // opened without a limit: a range / count / stream / compaction scan, not a point read
 }
 
 func (i *Iter) Key() []byte { return i.In.Key() }
@@ -646,6 +647,10 @@ func (i *Iter) Next(ctx context.Context) error {
 	}
 	if i.h.W.Rates.ReadErr > 0 || len(i.h.W.Plan) > 0 {
 		if i.h.decide("next", "", "") == "err" {
+			return ErrInjected
+		}
+		// planned faults can address unlimited scans only ("scannext"): the point reads inside writes stay healthy
+		if i.scan && len(i.h.W.Plan) > 0 && i.h.decide("scannext", "", "") == "err" {
 			return ErrInjected
 		}
 	}
